@@ -365,7 +365,6 @@ func (ra *resetAnalysis) mustAt(fn *ssa.Function, obj ssa.Value, path string, mo
 	return true
 }
 
-
 // fieldsRead computes, per struct type name, the set of leaf field paths that are read
 // somewhere in the package (a load through a FieldAddr chain, a Field extraction, or the
 // address being passed on).
@@ -1035,7 +1034,6 @@ func checkR01_4(w *World, r *Report) {
 	}
 	r.floor("functions borrowing from a pooled object", nSites, 1)
 }
-
 
 // internTransparent: the only frozen exception of R01.3.  ZeroAllocTokenizer.tempStrings is an
 // interning table that grows across parses by design.  It is accepted only while every function
